@@ -20,6 +20,8 @@ pub enum Op {
   Write { res: usize, chk: RK, k: Val, via: bool },
   /// `if acc % modulus == m { then } else { els }`.
   If { m: Val, modulus: Val, then: Vec<Op>, els: Vec<Op> },
+  /// Read resource `res` with an exact checker and run `cases[value % cases.len()]` (absent: case 0).
+  Switch { res: usize, cases: Vec<Vec<Op>> },
   /// The task panics (a crashing task).
   Panic,
   Nop,
@@ -272,6 +274,10 @@ pub fn gen_keys(rng: &mut Rng, ntasks: usize, nres: usize, sim_only: bool) -> (V
 
 pub fn gen_program_w(rng: &mut Rng, cfg: &GenCfg) -> Program {
   let (ntasks, nres) = if cfg.big { (rng.range(5, 8) as usize, rng.range(2, 4) as usize) } else { (rng.range(2, 8) as usize, rng.range(2, 8) as usize) };
+  gen_program_w_sized(rng, cfg, ntasks, nres)
+}
+
+pub fn gen_program_w_sized(rng: &mut Rng, cfg: &GenCfg, ntasks: usize, nres: usize) -> Program {
   let exact_only = rng.chance(cfg.exact_only_pct);
   let (keys, resources) = gen_keys(rng, ntasks, nres, cfg.sim_fams_only);
   let mut writer = BTreeMap::new();
@@ -332,7 +338,8 @@ pub fn gen_history(rng: &mut Rng, prog: &Program, cfg: &GenCfg) -> (Vec<(usize, 
       0..=4 => {
         let burst = if cfg.big { rng.range(1, 3) } else { 1 };
         for _ in 0..burst {
-          let res = rng.below(nres as u64) as usize;
+          let mut res = rng.below(nres as u64) as usize;
+          if prog.class == Class::V && rng.chance(40) { res = nres - 1; }
           match rng.below(10) {
             0 => steps.push(Step::Touch { res }),
             1..=2 => steps.push(Step::Change { res, val: None }),
@@ -390,6 +397,7 @@ fn reads_of(ops: &[Op], out: &mut Vec<(usize, RK)>) {
     match op {
       Op::Read { res, chk } => out.push((*res, *chk)),
       Op::If { then, els, .. } => { reads_of(then, out); reads_of(els, out); }
+      Op::Switch { res, cases } => { out.push((*res, RK::Exact)); for c in cases { reads_of(c, out); } }
       _ => {}
     }
   }
@@ -448,4 +456,66 @@ pub fn gen_program_x(rng: &mut Rng, cfg: &GenCfg, want: u64) -> Program {
     }
   }
   p
+}
+
+/// Class M: a class-W program in which one task declares a second dependency on one target with a different checker.
+pub fn gen_program_m(rng: &mut Rng, cfg: &GenCfg) -> Program {
+  let mut p = gen_program_w(rng, cfg);
+  p.class = Class::M;
+  p.exact_only = false;
+  for _ in 0..16 {
+    let t = rng.below(p.tasks.len() as u64) as usize;
+    if p.tasks[t].ops.is_empty() { continue; }
+    let i = rng.below(p.tasks[t].ops.len() as u64) as usize;
+    let dup = match &p.tasks[t].ops[i] {
+      Op::Read { res, chk } => { let mut k = pick_rk(rng, false); if k == *chk { k = if *chk == RK::Exact { RK::Parity } else { RK::Exact }; } Some(Op::Read { res: *res, chk: k }) }
+      Op::Require { task, chk } => { let mut k = pick_ok(rng, false); if k == *chk { k = if *chk == OK::Equals { OK::ResultC } else { OK::Equals }; } Some(Op::Require { task: *task, chk: k }) }
+      _ => None,
+    };
+    if let Some(d) = dup {
+      let pos = if rng.chance(50) { i + 1 } else { p.tasks[t].ops.len() };
+      p.tasks[t].ops.insert(pos, d);
+      return p;
+    }
+  }
+  p
+}
+
+fn remap_tasks(ops: &[Op], perm: &[usize]) -> Vec<Op> {
+  ops.iter().map(|op| match op {
+    Op::Require { task, chk } => Op::Require { task: perm[*task], chk: *chk },
+    Op::If { m, modulus, then, els } => Op::If { m: *m, modulus: *modulus, then: remap_tasks(then, perm), els: remap_tasks(els, perm) },
+    Op::Write { res, k, via, .. } => Op::Write { res: *res, chk: RK::Exact, k: *k, via: *via },
+    other => other.clone(),
+  }).collect()
+}
+
+/// Class V: two or three class-W sub-programs over the same task and resource ids with different role assignments
+/// (who writes a resource, who reads it, who requires whom), selected by a mode resource that every task reads first.
+/// Every single state is violation-free.
+pub fn gen_program_v(rng: &mut Rng, cfg: &GenCfg) -> Program {
+  let ntasks = rng.range(2, 6) as usize;
+  let nres = rng.range(2, 5) as usize;
+  let ncases = rng.range(2, 3) as usize;
+  let mut c2 = GenCfg { exact_only_pct: cfg.exact_only_pct, ..GenCfg::default() };
+  c2.sim_fams_only = cfg.sim_fams_only;
+  let base = gen_program_w_sized(rng, &c2, ntasks, nres);
+  let mut cases: Vec<Vec<Vec<Op>>> = vec![vec![]; ntasks]; // per task: per case: ops
+  for case in 0..ncases {
+    let sub = if case == 0 { base.clone() } else { let mut p = gen_program_w_sized(rng, &c2, ntasks, nres); p.exact_only = base.exact_only; p };
+    // Random relabelling of the tasks (identity for case 0) inverts require directions between cases.
+    let mut perm: Vec<usize> = (0..ntasks).collect();
+    if case > 0 { for i in (1..ntasks).rev() { let j = rng.below(i as u64 + 1) as usize; perm.swap(i, j); } }
+    let mut per_task: Vec<Vec<Op>> = vec![vec![]; ntasks];
+    for i in 0..ntasks { per_task[perm[i]] = remap_tasks(&sub.tasks[i].ops, &perm); }
+    for t in 0..ntasks { cases[t].push(std::mem::take(&mut per_task[t])); }
+  }
+  let mut resources = base.resources.clone();
+  // The mode resource: a fresh key.
+  let mut mode = ResKey { fam: 0, id: 7 };
+  while resources.contains(&mode) { mode.id += 1; }
+  resources.push(mode);
+  let mode_idx = resources.len() - 1;
+  let tasks: Vec<TaskDef> = (0..ntasks).map(|t| TaskDef { key: base.tasks[t].key, ops: vec![Op::Switch { res: mode_idx, cases: cases[t].clone() }] }).collect();
+  Program { class: Class::V, tasks, resources, writer: BTreeMap::new(), exact_only: false }
 }
